@@ -437,14 +437,20 @@ def writer(net_src, obs_src):
         if not m or not mn or mn.group(1) != tag:
             raise DocError(f"DisplayObservationVisitor::visit({cls}*): value expression / xml_name not recognised")
         vis[tag] = bool(m.group(1))
-    vb = body_of(obs_src, r"DisplayObservationVisitor::DisplayObservationVisitor\s*\([^)]*\)\s*:[^{]*\{", "DisplayObservationVisitor ctor")
-    if not re.search(r"scale\s*\(\s*ln->gons\(\)\s*\?\s*1\.0\s*:\s*0\.324\s*\)", obs_src):
-        raise DocError("DisplayObservationVisitor: scale not recognised")
+    ctor_scale = bool(re.search(r"scale\s*\(\s*ln->gons\(\)\s*\?\s*1\.0\s*:\s*0\.324\s*\)", obs_src))
+    scaled = []
     for cls in ("Direction", "Angle", "Z_Angle", "Azimuth"):
         vb = body_of(obs_src, r"void\s+DisplayObservationVisitor::visit\s*\(\s*%s\s*\*\s*obs\s*\)\s*\{" % cls, f"visit({cls}*)")
-        if not (re.search(r"if\s*\(\s*lnet->gons\(\)\s*\)\s*str_val\s*=\s*to_xmlstr\s*\(\s*m\s*\)\s*;\s*else\s+str_val\s*=\s*GNU_gama::gon2deg\s*\(\s*m\s*,\s*0\s*,\s*4\s*\)", vb)
-                and re.search(r"str_stdev\s*=\s*to_xmlstr\s*\(\s*obs->stdDev\(\)\s*\*\s*scale\s*\)", vb)):
-            raise DocError(f"DisplayObservationVisitor::visit({cls}*): angular value / stdev formatting not recognised")
+        if not re.search(r"if\s*\(\s*lnet->gons\(\)\s*\)\s*str_val\s*=\s*to_xmlstr\s*\(\s*m\s*\)\s*;\s*else\s+str_val\s*=\s*GNU_gama::gon2deg\s*\(\s*m\s*,\s*0\s*,\s*4\s*\)", vb):
+            raise DocError(f"DisplayObservationVisitor::visit({cls}*): angular value formatting not recognised")
+        if re.search(r"str_stdev\s*=\s*to_xmlstr\s*\(\s*obs->stdDev\(\)\s*\*\s*scale\s*\)", vb):
+            scaled.append(True)
+        elif re.search(r"str_stdev\s*=\s*to_xmlstr\s*\(\s*obs->stdDev\(\)\s*\)", vb):
+            scaled.append(False)
+        else:
+            raise DocError(f"DisplayObservationVisitor::visit({cls}*): stdev formatting not recognised")
+    # the standard deviation of every angular observation is written `* scale`, scale = 1 (gons) or 0.324 (degrees)
+    consts["visStdevScaled"] = ctor_scale and all(scaled)
     for cls in ("Distance", "S_Distance", "H_Diff"):
         vb = body_of(obs_src, r"void\s+DisplayObservationVisitor::visit\s*\(\s*%s\s*\*\s*obs\s*\)\s*\{" % cls, f"visit({cls}*)")
         if not (re.search(r"str_val\s*=\s*to_xmlstr\s*\(\s*obs->raw_value\(\)\s*\)", vb) and re.search(r"str_stdev\s*=\s*to_xmlstr\s*\(\s*obs->stdDev\(\)\s*\)", vb)):
@@ -465,6 +471,57 @@ def lname(s):
     return re.sub(r"[^A-Za-z0-9]", "_", s)
 
 
+def parse_degrees(gkf):
+    """the sexagesimal branch of the parser: deg2gon tried first on the value of the four angular elements, the flag
+    stored with the standard deviation, finish_obs scaling the flagged rows by 1/0.324"""
+    out = {}
+    tried = []
+    for fn in ("process_direction", "process_angle", "process_zangle", "process_azimuth"):
+        b = process_body(gkf, fn)
+        ok = bool(re.search(r"if\s*\(\s*GNU_gama::deg2gon\s*\(\s*sm\s*,\s*dm\s*\)\s*\)\s*degrees\s*=\s*true\s*;\s*else\s+if\s*\(\s*!toDouble\s*\(\s*sm\s*,\s*dm\s*\)\s*\)\s*return\s+error", b)
+                  and re.search(r"sigma\.push_back\s*\(\s*DB_pair\s*\(\s*d[vs]\s*,\s*degrees\s*\)\s*\)", b)
+                  and re.search(r"bool\s+degrees\s*=\s*false\s*;", b))
+        tried.append(ok)
+    for fn in ("process_distance", "process_sdistance"):
+        b = process_body(gkf, fn)
+        if "deg2gon" in b or not re.search(r"DB_pair\s*\(\s*d[vs]\s*,\s*false\s*\)", b):
+            raise DocError(f"{fn}: sexagesimal handling not recognised")
+    if any(tried) and not all(tried):
+        raise DocError("process_direction/angle/zangle/azimuth: the sexagesimal branches differ")
+    out["parserTriesDeg2gon"] = all(tried)
+    fb = body_of(gkf, r"int\s+GKFparser::finish_obs\s*\(\s*\)\s*\{", "finish_obs")
+    out["parserScalesSeconds"] = bool(re.search(r"if\s*\(\s*\(\*s\)\.second\s*\)\s*standpoint->scaleCov\s*\(\s*i\s*,\s*1\.0\s*/\s*0\.324\s*\)", fb))
+    return out
+
+
+def refine_site(net):
+    """LocalNetwork::refine_approx_coordinates: PD[cb] (by reference) += x(i)/1000 for 'X' (x and y, y from x(i+1)) and 'Z';
+    refine_adjustment: the loop around it; export_xml reads PD through point.x() / point.y() / point.z()"""
+    b = body_of(net, r"void\s+LocalNetwork::refine_approx_coordinates\s*\(\s*\)\s*\{", "refine_approx_coordinates")
+    out = {}
+    out["solves"] = bool(re.search(r"const\s+Vec\s*&\s*x\s*=\s*solve\s*\(\s*\)\s*;", b))
+    mx = re.search(r"unknown_type\s*\(\s*i\s*\)\s*==\s*'X'\s*\)\s*\{(.*?)\}", b, re.S)
+    mz = re.search(r"unknown_type\s*\(\s*i\s*\)\s*==\s*'Z'\s*\)\s*\{(.*?)\}", b, re.S)
+    if not mx or not mz:
+        raise DocError("refine_approx_coordinates: the 'X' / 'Z' branches not recognised")
+    ref = r"LocalPoint\s*&\s*b\s*=\s*PD\s*\[\s*cb\s*\]\s*;"
+    cbr = r"const\s+PointID\s*&\s*cb\s*=\s*unknown_pointid\s*\(\s*i\s*\)\s*;"
+    m = re.search(r"b\.set_xy\s*\(\s*b\.x\(\)\s*\+\s*x\(i\)\s*/\s*(\d+)\s*,\s*b\.y\(\)\s*\+\s*x\(i\s*\+\s*(\d+)\)\s*/\s*(\d+)\s*\)\s*;", mx.group(1))
+    out["xy"] = (bool(re.search(ref, mx.group(1)) and re.search(cbr, mx.group(1)) and m), m.groups() if m else ("0", "0", "0"))
+    m = re.search(r"b\.set_z\s*\(\s*b\.z\(\)\s*\+\s*x\(i\)\s*/\s*(\d+)\s*\)\s*;", mz.group(1))
+    out["z"] = (bool(re.search(ref, mz.group(1)) and re.search(cbr, mz.group(1)) and m), m.groups() if m else ("0",))
+    a = body_of(net, r"bool\s+LocalNetwork::refine_adjustment\s*\(\s*\)\s*\{", "refine_adjustment")
+    shape = re.sub(r"\s+", "", a)
+    want = ("clear_linearization_iterations();while(next_linearization_iterations()){boolrefine=refine_obsdh_reductions(this);"
+            "if(!refine)refine=TestLinearization(this);if(!refine)break;increment_linearization_iterations();"
+            "refine_approx_coordinates();}returnlinearization_iterations()>0;")
+    out["loop"] = shape == want
+    nb = body_of(net, r"bool\s+LocalNetwork::next_linearization_iterations\s*\(\s*\)\s*const\s*\{", "next_linearization_iterations") \
+        if re.search(r"bool\s+LocalNetwork::next_linearization_iterations", net) else None
+    out["next"] = None if nb is None else re.sub(r"\s+", "", nb)
+    return out
+
+
 def generate(repo):
     repo = Path(repo)
     gkf = strip_comments((repo / "lib/gnu_gama/xml/gkfparser.cpp").read_text())
@@ -482,6 +539,8 @@ def generate(repo):
     if process_body(gkf, "process_hdiffs").count('nam ==') or process_body(gkf, "process_vectors").count('nam =='):
         raise DocError("process_hdiffs / process_vectors accept attributes now")
     W = writer(net, obs)
+    DG = parse_degrees(gkf)
+    RF = refine_site(net)
 
     if P["attrs"] != ["id", "y", "x", "z", "fix", "adj"] and sorted(P["attrs"]) != ["adj", "fix", "id", "x", "y", "z"]:
         raise DocError(f"process_point: attributes {P['attrs']}")
@@ -601,6 +660,21 @@ def generate(repo):
           f"def covMirrors : Bool := {'true' if W['consts']['covMirrors'] else 'false'}",
           "/-- with a list and `degrees()` rows of angular observations are scaled to sexagesimal seconds (0.324) -/",
           f"def covScalesSeconds : Bool := {'true' if W['consts']['covScalesSeconds'] else 'false'}", "",
+          "/-- DisplayObservationVisitor writes the standard deviation of an angular observation `* scale`, scale = 0.324 in degrees -/",
+          f"def visStdevScaled : Bool := {'true' if W['consts']['visStdevScaled'] else 'false'}",
+          "/-- the parser tries `deg2gon` on the value of direction / angle / z-angle / azimuth first and keeps the flag -/",
+          f"def parserTriesDeg2gon : Bool := {'true' if DG['parserTriesDeg2gon'] else 'false'}",
+          "/-- `finish_obs` scales the rows of the observations given in sexagesimal units by `1.0/0.324` -/",
+          f"def parserScalesSeconds : Bool := {'true' if DG['parserScalesSeconds'] else 'false'}", "",
+          "/-! ## LocalNetwork::refine_approx_coordinates / refine_adjustment (what `point.x()` … of export_xml have become) -/", "",
+          "/-- `const Vec& x = solve();` — the corrections are those of the current adjustment -/",
+          f"def refineSolves : Bool := {'true' if RF['solves'] else 'false'}",
+          "/-- 'X': `LocalPoint& b = PD[cb]; b.set_xy(b.x() + x(i)/D, b.y() + x(i+K)/D)` — (recognised, by reference; D for x, K, D for y) -/",
+          f"def refineXY : Bool × Nat × Nat × Nat := ({'true' if RF['xy'][0] else 'false'}, {RF['xy'][1][0]}, {RF['xy'][1][1]}, {RF['xy'][1][2]})",
+          "/-- 'Z': `LocalPoint& b = PD[cb]; b.set_z(b.z() + x(i)/D)` -/",
+          f"def refineZ : Bool × Nat := ({'true' if RF['z'][0] else 'false'}, {RF['z'][1][0]})",
+          "/-- refine_adjustment is `while (next) { refine = obsdh(); if (!refine) refine = Test(); if (!refine) break; ++it; refine_approx_coordinates(); }` -/",
+          f"def refineLoopShape : Bool := {'true' if RF['loop'] else 'false'}", "",
           "/-- `latitude` is written in gons (`latitude()*200/M_PI`), the unit process_parameters reads -/",
           f"def latitudeInGons : Bool := {'true' if W['consts']['latitudeInGons'] else 'false'}", "",
           "/-- `set_algorithm`: known names, and the one an unknown name is replaced by -/",
